@@ -14,6 +14,7 @@ import prudp_session as ps
 import c07_multiport as mpo
 import c07_writefail as wf
 import c07_forgedack as fa
+import c07_handshake as hs
 import l1_trace
 import l1_stream
 from sim import ticks, quant
@@ -291,9 +292,15 @@ def work_inner(args):
             st.update(inj=st["multi_port_reads"] + st["forged"] + st["third_reads"], decodes=st["reads"], rejected=0)
             return idx, specd, seed, atk, mpo.judge(att), att, st, None
         # (forged acknowledgements + loss: the loss of the victims' own packets is part of the reference run as well)
-        ref = ms.run(spec, seed, fa.setup(atk[1], False) if atk[0] == "forgedack" else None)
+        if atk[0] == "handshake":
+            # (well-formed handshake packets at every phase: path delay and observation of the connection objects in both runs)
+            hs.prepare(spec)
+            hsetup = hs.stream_setup if spec.transport == "lite" else hs.setup
+        ref = ms.run(spec, seed, fa.setup(atk[1], False) if atk[0] == "forgedack" else hsetup(atk[1], False) if atk[0] == "handshake" else None)
         if atk[0] == "forgedack":
             att = ms.run(spec, seed, fa.setup(atk[1], True))
+        elif atk[0] == "handshake":
+            att = ms.run(spec, seed, hsetup(atk[1], True))
         elif atk[0] == "writefail-dg":
             att = ms.run(spec, seed, wf.datagram_attack(atk[1]))
         elif atk[0] == "writefail-st":
@@ -323,7 +330,13 @@ def work_inner(args):
             got = ref.got.get(i, [])
             if len(got) != nrounds or any(not g.startswith(w) for g, w in zip(got, want)):
                 bad.append(("reference", "reference run: client %d did not get its own echoes: %r" % (i, [g[:30] for g in got])))
-        diff = compare_views(ms.victim_view(ref), ms.victim_view(att), {ms.ATTACKER, att.flood_addr} | set(att.probe_addrs))
+        if atk[0] == "handshake":
+            diff = hs.compare(ref, att, atk[1])
+            if not [b for b in bad if b[0] == "crash"]:
+                bad.extend(hs.judge(spec, ref, att, atk[1]))
+            hs.strip(spec, ref, att)
+        else:
+            diff = compare_views(ms.victim_view(ref), ms.victim_view(att), {ms.ATTACKER, att.flood_addr} | set(att.probe_addrs))
         if atk[0] == "probe":
             if len(att.probe_results) != len(atk[1]):
                 bad.append(("probe-setup", "only %d of %d probes finished" % (len(att.probe_results), len(atk[1]))))
@@ -371,7 +384,7 @@ def work_inner(args):
                     break
         # ... and no other state either: once every connection has ended, every container reachable from the transport object is
         # as large as in the run without the hostile traffic
-        if atk[0] in ("datagram", "probe", "forgedack") and spec.transport == "udp" and not [b for b in bad if b[0] in ("crash", "reference")]:   # (a hostile stream connection that is still open IS state)
+        if atk[0] in ("datagram", "probe", "forgedack", "handshake") and spec.transport == "udp" and not [b for b in bad if b[0] in ("crash", "reference")]:   # (a hostile stream connection that is still open IS state)
             grown = {k: (ref.census.get(k, 0), v) for k, v in att.census.items() if v > ref.census.get(k, 0)}
             if grown:
                 k = sorted(grown)[0]
@@ -385,6 +398,8 @@ def work_inner(args):
         stats = {"inj": getattr(att, "injected", 0), "decodes": len(att.decodes), "rejected": sum(1 for _, p in att.decodes if p < 0)}
         if atk[0] == "forgedack":
             stats.update(forged=dict(att.forged), lost=dict(att.lost))
+        if atk[0] == "handshake":
+            stats.update(hs_labels=dict(att.hs_labels))
         return idx, specd, seed, atk, bad, att, stats, None
     except Exception:
         return idx, specd, seed, atk, [], None, {}, traceback.format_exc()
@@ -423,6 +438,7 @@ def run(ctx):
                 "unknown peers, bounded decode work; the server transport of every datagram run is replayed through the Lean L1 model; "
                 "also: one read that carries packets for several virtual ports (a client transport with a connection to each of 2..3 bound ports, everything written within 2 ms aggregated into one datagram / stream read in both directions, forged packets for unbound ports behind / in front of / between the genuine ones, third parties' reads mixing requests for bound and unbound ports in every order; direct oracles: own echoes only, nothing lost, answers only by the addressed ports, no state), and a transport whose write fails for one peer (sendto raising for an address, stream peers resetting before the answer to SYN / CONNECT is written); "
                 "and forged acknowledgements combined with loss: packets with the peer's address that name the victim's in-flight packets (type, substream, predictable sequence id; FLAG_ACK or aggregate acknowledgement) with signatures that are garbage / copied / wrongly keyed, to clients and to the server, while the first transmission of the genuine packet or of its acknowledgement is lost in both runs; "
+                "and well-formed handshake packets at every phase (harness/c07_handshake.py): SYN/ACK, CONNECT/ACK, SYN, CONNECT that pass the decoders and mostly the signature checks, towards the client transports with the server's address and towards the server with the victim's address and port / another port / the third party's addresses (stream transports: from hostile stream connections of their own), after the victim's SYN was acknowledged, after its CONNECT was acknowledged, mid-session, while idle, around the DISCONNECT; twin-run oracle plus the victims' connection objects (negotiated parameters, peer's connection signature and session id, state) at every genuine transmission; "
                 "distinct non-trivial = injected hostile datagrams")
     jobs = []
     n = 0
@@ -531,6 +547,26 @@ def run(ctx):
                 jobs.append((n, dict(fsp, ping_timeout=0.4375), ctx.rng.getrandbits(32), ("forgedack", cfg))); n += 1
                 continue
             jobs.append((n, fsp, ctx.rng.getrandbits(32), ("forgedack", cfg))); n += 1
+    # WELL-FORMED HANDSHAKE PACKETS at every phase of a victim connection (harness/c07_handshake.py): SYN/ACK, CONNECT/ACK, SYN, CONNECT that
+    # pass every decoder and signature check, towards the client transports (with the server's address) and towards the server (with the
+    # victim's address and port, the victim's address and another port, the third party's own addresses), after the victim's SYN was
+    # acknowledged, after its CONNECT was acknowledged, next to the session's packets, far from any traffic, around the DISCONNECT; with
+    # `reflect` also valid requests in the victim's name, which the server answers towards the victim; stream transports: hostile stream
+    # connections that send such packets for the victims' ports all the time
+    for sp in dg_specs:
+        hcfgs = [dict(to="both", reflect=False, intensity=0.5), dict(to="both", reflect=True, intensity=0.6)]
+        if not quick:
+            hcfgs += [dict(to="client", reflect=False, intensity=1.0), dict(to="server", reflect=True, intensity=1.0),
+                      dict(to="both", reflect=False, intensity=0.3, join=0.6), dict(to="both", reflect=True, intensity=0.8)]
+        for cfg in hcfgs:
+            jobs.append((n, dict(sp, rounds=4), ctx.rng.getrandbits(32), ("handshake", cfg))); n += 1
+        # idle: only keep-alives flow between the rounds
+        for r in range(1 if quick else 3):
+            jobs.append((n, dict(sp, rounds=3, round_gap=0.9, ping_timeout=0.4375), ctx.rng.getrandbits(32),
+                         ("handshake", dict(to=ctx.rng.choice(["both", "client"]), reflect=bool(r % 2), intensity=0.5, idle=True)))); n += 1
+    for sp in (st_spec, st2_spec, late_spec):
+        for r in range(1 if quick else 4):
+            jobs.append((n, sp, ctx.rng.getrandbits(32), ("handshake", dict(conns=ctx.rng.choice([1, 2, 3]), steps=40)))); n += 1
     drv = ctx.driver("C02")
     ndiff, first = 0, None
     with multiprocessing.Pool(min(16, os.cpu_count() or 4)) as pool:
@@ -539,7 +575,7 @@ def run(ctx):
                 ctx.corr_break("c07-session-harness", "session crashed in the harness", {"traceback": err, "spec": specd, "attack": atk})
                 continue
             for key, what in bad:
-                ctx.violation("c07:%s:%s" % (key, specd.get("transport", "udp") + (":" + atk[1] if atk[0] == "stream" else "") + (":flood" if atk[0] == "flood" else "") + (":probe" if atk[0] == "probe" else "") + (":reconnect" if atk[0] == "reconnect" else "") + (":" + atk[0] if atk[0] in ("multiport", "writefail-dg", "writefail-st", "forgedack") else "")), what,
+                ctx.violation("c07:%s:%s" % (key, specd.get("transport", "udp") + (":" + atk[1] if atk[0] == "stream" else "") + (":flood" if atk[0] == "flood" else "") + (":probe" if atk[0] == "probe" else "") + (":reconnect" if atk[0] == "reconnect" else "") + (":" + atk[0] if atk[0] in ("multiport", "writefail-dg", "writefail-st", "forgedack", "handshake") else "")), what,
                               {"spec": specd, "attack": atk, "seed": seed, "how": "harness/corr_C07.py work((0, spec, seed, attack))"})
             if att is not None and specd.get("transport") == "lite":
                 # stream transports: the server transport replayed through L1 from the stream reads / writes (harness/l1_stream.py)
@@ -578,6 +614,16 @@ def run(ctx):
                     ctx.tag("udp:forged-ack+loss:signature:%s" % a[3], cnt)
                 for kind, cnt in stats.get("lost", {}).items():
                     ctx.tag("udp:forged-ack+loss:genuine-first-transmission-lost:%s" % kind, cnt)
+            elif atk[0] == "handshake":
+                tr = specd.get("transport", "udp")
+                ctx.tag("%s:handshake-packets:twin-runs" % tr)
+                for lab, cnt in stats.get("hs_labels", {}).items():
+                    a = lab.split(":")
+                    if tr == "udp":
+                        ctx.tag("udp:handshake-packets:%s:%s:%s" % (a[0], a[1], a[2]), cnt)
+                        ctx.tag("udp:handshake-packets:shape:%s" % ":".join(a[2:]), cnt)
+                    else:
+                        ctx.tag("lite:handshake-packets:%s" % ":".join(a[:2]), cnt)
             elif atk[0] in ("writefail-dg", "writefail-st"):
                 ctx.tag("%s:write-fails-for-one-peer:%s" % (specd.get("transport", "udp"), atk[1].get("kind", "sendto-raises") + (str(atk[1]["at"]) if "at" in atk[1] else "")), stats.get("inj", 0))
             else:
